@@ -2,12 +2,13 @@
 (verif hook VerifParser), InputTrace.tla validates the log."""
 
 
-def run_input(ctx, prefix, mode, n, exhaustive=False, parts=12):
+def run_input(ctx, prefix, mode, n, exhaustive=False, parts=12, extra=()):
     ctx.build_harness()
     tf = ctx.work + "/trace.ndjson"
     args = ["input", "--mode", mode, "--n", n, "--seed", ctx.seed, "--out", tf]
     if exhaustive:
         args.append("--exhaustive")
+    args += list(extra)
     s, _ = ctx.run_vh(args, timeout=3400)
     r = ctx.validate_parallel("InputTrace", tf, parts=parts, expect_events=s.get("events"), timeout=3400)
     ctx.add_violations([d for d in r["devs"] if d["tag"].startswith(prefix + ".")], tf)
